@@ -93,7 +93,8 @@ def writeNegative (ds : List Nat) (sciExp : Int) (o : WOpts) : List Nat :=
   let count := ds.length
   let exact := minExactDigits count o
   if carried ∧ k = 1 then
-    (if o.trim then [49] else [49, o.dp, 48] ++ (if count < exact then zeros (exact - count) else []))
+    (if o.trim then [49]
+     else [49, o.dp, 48] ++ (if count + 1 < minExactDigits (count + 1) o then zeros (minExactDigits (count + 1) o - (count + 1)) else []))
   else
     let lead := if carried then k - 2 else k - 1          -- zeros between the point and the digits
     [48, o.dp] ++ zeros lead ++ chars ds ++ (if count < exact then zeros (exact - count) else [])
